@@ -56,7 +56,7 @@ package blockstore
 //@ func ext (github.com/ipfs/go-cid.Cid).Hash
 //@   ensures result == cidHash(c)
 //@ func ext (github.com/ipfs/go-cid.Cid).Defined
-//@   pure
+//@   ensures c == cid.Undef ==> !result
 //@ func ext github.com/ipfs/go-block-format.NewBlockWithCid
 //@   ensures err == nil ==> result0 != nil && blockBytes(asIface(result0)) == data && blockCid(asIface(result0)) == c
 //@ func iface github.com/ipfs/go-datastore.Batching.Get
